@@ -7,7 +7,7 @@
    (success, failure, keyspace failure), connection failures with their error callbacks, Close calls,
    in any order (Model.v lists the labels).  All statements are for every such sequence. *)
 From GocqlV Require Import Lib.Base Gen.Consts C17.Model C17.Spec
-  C17.Proofs1 C17.Proofs2 C17.Proofs3 C17.Proofs4 C17.Proofs5 C17.Proofs6.
+  C17.Proofs1 C17.Proofs2 C17.Proofs3 C17.Proofs4 C17.Proofs5 C17.Proofs6 C17.Proofs7 C17.Proofs8.
 
 (* ---------------- pool ---------------- *)
 
@@ -71,6 +71,57 @@ Theorem C17_pool_terminates : forall s ls s',
 Proof. intros s ls s' Hi Hr. split; [apply pmeasure_nonneg|exact (pool_terminates_lemma s ls s' Hi Hr)]. Qed.
 Print Assumptions C17_pool_terminates.
 
+(* "... and replaced".  HandleError starts a fill (C17_closed_conn_removed), and so does every Pick on
+   a pool below its size.  Whenever a fill has been started on an open pool that is not being filled
+   (no error callback and no Close pending), and from then on every dial succeeds and no connection
+   fails, then on EVERY schedule -- any interleaving, any number of further fill() calls -- quiescence
+   is reached (C17_pool_progress / C17_pool_terminates) with the pool exactly at its size. *)
+Theorem C17_pool_refills : forall size ls0 s0 ls s,
+  prun (pool_init size) ls0 = Some s0 ->
+  p_closed s0 = false -> p_filling s0 = false -> p_dead s0 = [] -> p_closing s0 = [] -> p_threads s0 <> [] ->
+  forallb p_lucky ls = true -> prun s0 ls = Some s -> p_quiescent s = true ->
+  Z.of_nat (length (p_conns s)) = Z.max 0 size.
+Proof. exact pool_refills_lemma. Qed.
+Print Assumptions C17_pool_refills.
+
+(* ---------------- policyConnPool (the session's table of host pools) ---------------- *)
+
+(* After Close -- for every interleaving of addHost / removeHost / SetHosts with it -- the table is
+   empty, every host pool ever created has been closed or its `go pool.Close()` is queued, and addHost
+   creates nothing any more (repair of F-C17-3; pre-fix: Refuted.pool_created_after_close_before_fix).
+   With C17_no_conn_survives_close for each of them: no pool connection survives Session.Close. *)
+Theorem C17_policy_pool_closed : forall ls s,
+  pprun ppool_init ls = Some s -> pp_closed s = true ->
+  pp_map s = []
+  /\ (forall p, (p < pp_next s)%nat -> In p (pp_closedpools s) \/ In p (pp_detached s))
+  /\ (forall h s', ppstep s (PPAdd h) = Some s' -> s' = s).
+Proof. exact policy_pool_closed_lemma. Qed.
+Print Assumptions C17_policy_pool_closed.
+
+(* ---------------- controlConn: reconnect against close ---------------- *)
+
+(* Reconnects terminate: any run of steps of reconnect goroutines (given that dials, setupConn and
+   refreshRing return) has at most [kmeasure s] steps -- five per goroutine. *)
+Theorem C17_reconnect_terminates : forall s ls s',
+  forallb k_rec_label ls = true -> krun s ls = Some s' ->
+  0 <= kmeasure s' /\ Z.of_nat (length ls) + kmeasure s' <= kmeasure s.
+Proof. exact reconnect_terminates_lemma. Qed.
+Print Assumptions C17_reconnect_terminates.
+
+(* Once close() has set the state, it stays set and every reconnect that has not yet read the state
+   returns at once without touching anything; once the session context is cancelled no control
+   connection is made any more and the set of open ones only shrinks.  (A reconnect already inside
+   setupConn can still store its connection after close(): Refuted.control_conn_survives_close_refuted.) *)
+Theorem C17_control_after_close : forall s ls s',
+  krun s ls = Some s' ->
+  (k_closing s = true -> k_closing s' = true
+     /\ forall t, alookup t (k_recs s') = Some KR0 ->
+          exists s2, kstep s' (KRecCheck t) = Some s2 /\ k_open s2 = k_open s' /\ k_next s2 = k_next s' /\ k_stored s2 = k_stored s'
+                     /\ k_recs s2 = aremove t (k_recs s'))
+  /\ (k_cancelled s = true -> k_cancelled s' = true /\ k_next s' = k_next s /\ incl (k_open s') (k_open s)).
+Proof. exact control_after_close_lemma. Qed.
+Print Assumptions C17_control_after_close.
+
 (* ---------------- refresh debouncer (ring refresh; stopped by Session.Close) ---------------- *)
 
 (* stop() returns, unconditionally (repair of F-C17-1: stop only closes quit): in every state, for
@@ -128,6 +179,15 @@ Theorem C17_close_once : forall ls s,
 Proof. exact close_once_lemma. Qed.
 Print Assumptions C17_close_once.
 
+(* In particular eventDebouncer.stop (node events, schema events) and refreshDebouncer.stop are each
+   called at most once, whether Close is called twice, concurrently or from many goroutines: the
+   double stop of Refuted.event_stop_twice_refuted is not reachable through Session.Close, and the
+   hypothesis of C17_event_stop_returns is met. *)
+Theorem C17_close_stops_each_once : forall ls s c,
+  srun sess_init ls = Some s -> (count_occ comp_dec (s_log s) c <= 1)%nat.
+Proof. exact each_stop_once_lemma. Qed.
+Print Assumptions C17_close_stops_each_once.
+
 (* After the closing call has set isClosed, every query fails with ErrSessionClosed, for good. *)
 Theorem C17_queries_fail_after_close : forall s ls s',
   s_closed s = true -> srun s ls = Some s' -> query s' = QErrSessionClosed.
@@ -157,6 +217,24 @@ Example ex_refresh_runs :
   exists s, rrun rdeb_init ex_refresh = Some s /\ r_stopped s = true /\ r_quit_closed s = true
             /\ alookup 7%nat (r_stoppers s) = Some RSDone /\ r_fl s = RSelect /\ r_now s = true /\ r_calls s = 2%nat.
 Proof. eexists. split; [vm_compute; reflexivity|]. repeat split; reflexivity. Qed.
+
+(* the hypotheses of C17_pool_refills hold right after HandleError removed a connection of an idle
+   pool of size 3 (two connections left, a fill just started); two more fills join; all dials succeed *)
+Definition ex_refill_prefix : list plabel :=
+  [FillStart 0; FillCheck 0; FillDecide 0; DialOk 0; ConnectAdd 0; FillAsync 0; DialOk 1; DialOk 2; ConnectAdd 2; ConnectAdd 1;
+   FillStopped 0; ConnDie 1; HErr 1 7].
+Definition ex_refill : list plabel :=
+  [FillStart 8; FillCheck 7; FillCheck 8; FillDecide 8; FillStart 9; FillDecide 7; FillAsync 8; FillCheck 9; DialOk 3; ConnectAdd 3; FillStopped 8].
+Example ex_refill_runs :
+  exists s0 s, prun (pool_init 3) ex_refill_prefix = Some s0 /\ length (p_conns s0) = 2%nat /\ p_filling s0 = false
+               /\ p_dead s0 = [] /\ p_threads s0 = [(7%nat, F0)]
+               /\ forallb p_lucky ex_refill = true /\ prun s0 ex_refill = Some s /\ p_quiescent s = true /\ length (p_conns s) = 3%nat.
+Proof.
+  eexists. eexists. split; [vm_compute; reflexivity|].
+  split; [vm_compute; reflexivity|]. split; [vm_compute; reflexivity|]. split; [vm_compute; reflexivity|].
+  split; [vm_compute; reflexivity|]. split; [vm_compute; reflexivity|]. split; [vm_compute; reflexivity|].
+  split; vm_compute; reflexivity.
+Qed.
 
 (* one stop() of the event debouncer while the timer has fired with two frames buffered *)
 Definition ex_event : list elabel := [EDebounce; EDebounce; ETimerFire; EFlWakeTimer; EStopCall 3].
